@@ -1042,6 +1042,10 @@ class Executor:
                     za = to_z3_num(a, True)
                     zb = real_val(b)
                     return Sym(simp(za - zb * z3.ToReal(z3.ToInt(za / zb))))
+                if isinstance(b, float) and b > 0 and isinstance(a, Sym) and sym == '//':
+                    # floor division by a positive float constant: floor(a / b), a float in CPython (z3 ToInt is floor)
+                    za = to_z3_num(a, True)
+                    return Sym(simp(z3.ToReal(z3.ToInt(za / real_val(b)))))
                 if not isinstance(b, int) or isinstance(b, bool) or b <= 0:
                     raise Unsupported('// or % with non-constant or non-positive divisor')
                 return arith(sym, a, b)
